@@ -189,7 +189,7 @@ Definition outputs_of_ctor (rs : list reg) (rid inv : nat) : list inst :=
                   (match r_form r with
                    | FCtor _ _ [] _ => []
                    | FCtor _ _ [_] _ | FInst _ => [(0, 0, 0, 0)]
-                   | _ => provides r
+                   | _ => provides_all r   (* also an output whose identity was removed: it is made, owned and closed *)
                    end)
   | None => []
   end.
